@@ -20,6 +20,13 @@ virtual instant) are exactly the events of spec/Svs.tla:
 j is the timer jitter parameter: secrets.randbits is patched to return j * rstep, so that every
 timer the instance samples during the step is a whole number of ticks (spec: SupBase+j / SyncBase+j).
 
+Scale. Groups of up to 128 nodes (NODE_NAMES: n5 .. n127 have generated names of 1 - 3 components, 14 - 50 octets
+per entry): a vector of 16+ entries takes more than 252 octets, its Length number three octets. Sequence
+numbers beyond TLC's 32-bit integers: a Scenario made with seq_hi = B talks to the specification in SCALED
+CLASSES (spec/Svs.tla, header; SeqMap): a model value below HI is the number itself, HI + k is B + k; what the
+instance shows is mapped back, a number in neither class becomes BADSEQ (equal to no model value). Events,
+traces and replay objects are in model values.
+
 Projection (only what C18 names, through public attributes): local_sv, the decoded state vectors
 of the sync Interests handed to the face during the step, the number of on_missing_data calls
 during the step; plus, for keeping spec and instance in step, the public `state` and the time
@@ -59,6 +66,56 @@ NODE_NAMES = {
     'n3': [b'\xfd\xff\xff\x00', b'\x08\x03\xff\xfe\x80'],                       # type 65535 with empty value; non-UTF-8 bytes
     'n4': [b'\x08\x00', b'\xff\x00\x00\x00\x01\x00\x00\x00\x00\x01Z'],           # empty generic component; type 2^32
 }
+
+
+def _gen_name(i):
+    """the name of node n<i>, i >= 5: distinct, of varied shapes and lengths (an entry takes 21 .. 50 octets and more)"""
+    tag = b'%03d' % i
+    k = i % 4
+    if k == 0:
+        return [b'\x08' + bytes([9 + len(tag)]) + b'node-name' + tag]
+    if k == 1:
+        long = (b'site-%s-' % tag) * 4
+        return [b'\x08\x03org', b'\x08' + bytes([len(long)]) + long]
+    if k == 2:
+        return [b'\x08\x03grp', b'\x08\x03dev', b'\x08' + bytes([len(tag) + 2]) + b'id' + tag]
+    return [b'\x20' + bytes([len(tag) + 4]) + b'typd' + tag, b'\x08\x04host']
+
+
+for _i in range(5, 128):
+    NODE_NAMES['n%d' % _i] = _gen_name(_i)
+
+
+# ---- sequence numbers beyond the specification's integers: scaled classes (spec/Svs.tla: HiSeq, HiSpan, BadSeq)
+HI = 1 << 20
+HI_SPAN = 1 << 10
+BADSEQ = -2
+
+
+class SeqMap:
+    """model value <-> number on the wire. hi = None: the identity (every number of the history is below HI)."""
+
+    def __init__(self, hi=None):
+        if hi is not None and hi < HI:
+            raise ValueError(hi)              # the classes must not overlap
+        self.hi = hi
+
+    def wire(self, s):
+        return s if self.hi is None or s < HI else self.hi + (s - HI)
+
+    def spec(self, v):
+        if self.hi is None or not isinstance(v, int) or isinstance(v, bool):
+            return v
+        if v < HI:
+            return v
+        if self.hi <= v < self.hi + HI_SPAN:
+            return HI + (v - self.hi)
+        return BADSEQ
+
+    def packet(self, p):
+        if self.hi is None or not p.get('es'):
+            return p
+        return {'k': p['k'], 'es': [{'id': e['id'], 'seq': self.wire(e['seq'])} for e in p['es']]}
 
 
 # ---- the executor's own TLV code for state vectors (independent of ndn.app_support.svs.tlv, so that a
@@ -186,6 +243,7 @@ class World:
         self.names = {n: [bytes(c) for c in v] for n, v in names.items()}
         self.by_bytes = {_tlv(0x07, b''.join(v)): n for n, v in self.names.items()}
         self.wires = {}
+        self.sv_octets = {}                   # wire -> octets of the value of the state-vector component it carries
         self.turn = {'cut': 0, 'svl': 0}      # next member of a byte-level class to deliver (when the event names none)
         self._cuts = None
 
@@ -313,7 +371,11 @@ class World:
             return bytes(enc.make_interest(name, enc.InterestParam()))
         else:
             raise ValueError(k)
-        return bytes(enc.make_interest(name, enc.InterestParam(), b'', signer))
+        wire = bytes(enc.make_interest(name, enc.InterestParam(), b'', signer))
+        if k == 'sv':
+            (_, val), = _read_tlvs(bytes(name[-1]))
+            self.sv_octets[wire] = len(val)
+        return wire
 
     def decode_emitted(self, wire):
         """Decoded state vector of a sync Interest of this group found on the face: {node: seq} (zero
@@ -323,9 +385,11 @@ class World:
         if [bytes(c) for c in name[:len(base)]] != [bytes(c) for c in base]:
             return None
         comp = [c for c in name[len(base):] if enc.Component.get_type(c) == SV_TYPE]
+        self.emitted_octets = None            # octets of the vector of the Interest decoded last
         if len(comp) != 1:
             return {'?': 'no state vector component'}
         try:
+            self.emitted_octets = len(_read_tlvs(bytes(comp[0]))[0][1])
             entries = parse_sv_component(comp[0])
         except (IndexError, ValueError, KeyError):
             return {'?': 'undecodable state vector'}
@@ -404,15 +468,19 @@ def _exc_name(e):
 
 class Scenario:
     def __init__(self, nodes, init_seq=0, sup_ticks=2, sync_ticks=10, rstep=32768, j0=0, world=None, host=None,
-                 quiet=False, own_app=False, reps=None):
+                 quiet=False, own_app=False, reps=None, seq_hi=None):
         """nodes: list of node ids, nodes[0] is this node. sup_ticks/sync_ticks: the configured
         suppression / periodic intervals in ticks. rstep: randbits value per jitter unit.
         host: another Scenario whose session, application and face this instance shares (two SvsInst
         alive in one process); quiet: intervals so long that no timer of this instance ever fires.
         reps: (representation of the group prefix, of the node id) for the constructor, see REPS; None: the next
         pair in turn. What goes wrong with a representation is kept in init_faults [(signature tail, text, replay
-        object)]; the scenario then goes on with an instance made from plain component lists."""
+        object)]; the scenario then goes on with an instance made from plain component lists.
+        seq_hi: the number the model value HI stands for (SeqMap); init_seq and everything else the caller gives
+        or gets is in model values."""
         self.nodes = list(nodes)
+        self.sm = SeqMap(seq_hi)
+        self.last_octets = None       # octets of the vector the last received packet carried (kind "sv")
         self.me = nodes[0]
         self.world = world or WORLD
         self.host = host
@@ -480,7 +548,7 @@ class Scenario:
         try:
             inst = SvsInst(g, m, self._on_missing, sec.DigestSha256Signer(for_interest=True), self._validator,
                            sync_interval=sync_ticks * U, suppression_interval=sup_ticks * U,
-                           last_used_seq_num=init_seq)
+                           last_used_seq_num=self.sm.wire(init_seq))
             for scr in (gscr, mscr):
                 if scr is not None:
                     scr()               # the caller reuses its buffers
@@ -539,7 +607,7 @@ class Scenario:
         self.missing_calls += 1
         self.cbsaw.append(self.local())           # what an application reading inst.local_sv in the callback sees
         for _ in range(self.react):
-            self.rets.append(inst.new_data())
+            self.rets.append(self.sm.spec(inst.new_data()))
             self.published = True
 
     async def _validator(self, _name, _sig, _context):
@@ -560,7 +628,7 @@ class Scenario:
 
     def _publish_now(self, n):
         for _ in range(n):
-            self.rets.append(self.inst.new_data())
+            self.rets.append(self.sm.spec(self.inst.new_data()))
         self.published = True
 
     @property
@@ -586,13 +654,14 @@ class Scenario:
 
     # ---- observation
     def _take_out(self):
-        self.last_wires = []                            # (wire, decoded vector) of this step's own Interests
+        self.last_wires = []                            # (wire, decoded vector, its octets) of this step's own Interests
         out = []
         for w in self.face.out[self.seen:]:
             v = self.world.decode_emitted(w)
             if v is not None:                           # Interests of the other group are not ours
+                v = {n: self.sm.spec(q) for n, q in v.items()}
                 out.append(v)
-                self.last_wires.append((w, dict(v)))
+                self.last_wires.append((w, dict(v), self.world.emitted_octets))
         self.seen = len(self.face.out)
         return out
 
@@ -600,7 +669,7 @@ class Scenario:
         d = {n: 0 for n in self.nodes}
         for k, v in self.inst.local_sv.items():
             n = self.world.node_of(k)
-            d[n] = v
+            d[n] = self.sm.spec(v)
         return d
 
     def timer(self):
@@ -626,7 +695,7 @@ class Scenario:
             full.append(d)
         return {'local': self.local(), 'out': full, 'missed': m, 'ret': rets, 'cbsaw': saw,
                 'state': 'Suppress' if self.inst.state.name == 'SyncSuppression' else 'Steady',
-                'timer': self.timer(), 'seq': self.inst.self_seq}
+                'timer': self.timer(), 'seq': self.sm.spec(self.inst.self_seq)}
 
     def errors(self):
         return [str(c.get('exception') or c.get('message')) for c in self.sess.loop.errors]
@@ -650,7 +719,8 @@ class Scenario:
         n0 = len(self.sess.loop.errors)
         # (p of kind "cut" / "svl" stands for a class of byte strings: x names the member, None = the next in turn)
         self.last_x = self.world.pick_member(p, x)
-        wire = self.world.sync_interest(p, self.last_x)
+        wire = self.world.sync_interest(self.sm.packet(p), self.last_x)
+        self.last_octets = self.world.sv_octets.get(wire) if p['k'] == 'sv' else None
         self.pre_path = None
         try:
             if pre > 0 and p['k'] == 'unsigned':
@@ -700,7 +770,7 @@ class Scenario:
     def publish(self, n=1, j=0):
         self.r = j * self.rstep
         for _ in range(n):
-            self.rets.append(self.inst.new_data())
+            self.rets.append(self.sm.spec(self.inst.new_data()))
         self.sess.loop.settle(timers_now=False)
         # the expiry that was pending has been superseded by the publication; whatever is due
         # now was scheduled by the publication itself (a quiet instance must not run the timers
